@@ -97,7 +97,7 @@ ObserveStage(S, step, b, h) ==
                 S2 == Consume(S, h, R, IF step.why = "falloff" THEN "FallOffValue" ELSE "Deliveries", step)
             IN ObserveStage(S2, step, b, h + 1)
 
-\* remove repeated values, keeping first occurrences (values of one trace are distinct script counters)
+\* remove repeated values, keeping first occurrences (applied to both sides: equal up to repetition)
 RECURSIVE Dedup(_)
 Dedup(s) == IF s = <<>> THEN <<>>
             ELSE LET r == Dedup(SubSeq(s, 1, Len(s) - 1)) IN
@@ -116,7 +116,7 @@ TotalStage(S, step, a, h) ==
                 dup == /\ Len(S2.fails) > Len(S.fails) /\ R # {} /\ nxt <= Len(act)
                        /\ TotalNested(S.A, H.sel, a)
                        /\ { <<act[nxt].rec[i][1], Dedup(act[nxt].rec[i][2])>> : i \in DOMAIN act[nxt].rec }
-                          = (CHOOSE x \in R : TRUE)[2]
+                          = { <<y[1], Dedup(y[2])>> : y \in (CHOOSE x \in R : TRUE)[2] }
                 S3 == IF dup THEN [Fail(S, "TotalRecordNested", step, h) EXCEPT !.ptr[h] = @ + 1, !.at[h] = Append(@, S.si)] ELSE S2
             IN TotalStage(S3, step, a, h + 1)
 
